@@ -36,3 +36,20 @@ def _s(rnd):
     r = Register("R", 0, w, "r", base_endianness=rnd.choice(list(Endianness)))
     r._value = rnd.getrandbits(w)
     return {"self": r, "raw": rnd.random() < 0.5}
+
+
+# ---- PFR computed fields: the inverse half-word / byte is recomputed from the value, whatever the register held before -----------------
+from spsdk.pfr.pfr import BaseConfigArea  # noqa: E402
+
+
+@contract("spsdk.pfr.pfr:BaseConfigArea.pfr_reg_inverse_high_half")
+def _(val: U32) -> int:
+    returns(val % 65536 + (65535 - val % 65536) * 65536, label="high-half-is-the-inverse-of-the-low-half")
+    pure()
+
+
+@contract("spsdk.pfr.pfr:BaseConfigArea.pfr_reg_inverse_lower_8_bits")
+def _(val: U32) -> int:
+    # bits 7..0 kept, bits 15..8 = their inverse (stale bits there are cleared), bits 31..16 kept
+    returns(val % 256 + (255 - val % 256) * 256 + val // 65536 * 65536, label="bits-15-8-are-the-inverse-of-bits-7-0-rest-kept")
+    pure()
